@@ -109,17 +109,20 @@ def make_det_pool(ctl):
     class DetPool:
         def __init__(self, processes=None):
             self.poolsize = int(processes or 1)
+            self.running = True              # pool.py: RUN -> CLOSE / TERMINATE; map() checks it
 
         def close(self):
-            pass
+            self.running = False
 
         def terminate(self):
-            pass
+            self.running = False
 
         def join(self):
             pass
 
         def map(self, fn, iterable):
+            if not self.running:
+                raise ValueError("Pool not running")
             items = list(iterable)
             n = len(items)
             batches = chunk_batches(n, self.poolsize)
